@@ -1075,4 +1075,53 @@ theorem runFrame_gas (tx : Tx) (f : Frame) (hf : Fresh f) (hk : tx.ante.kind = .
       (by rw [h3.2.2.2.2.2.2.2.2.2.2.2.2.2, h3.2.2.2.2.2.2.2.2.2.2.2.1, hblock, hsg']; exact hsg)
     rw [hkeep]
 
+
+/-! ### well-formed block meters: the prelude of runTx cannot panic -/
+
+/-- the block meters BeginBlock installs, in any state reachable by charging them -/
+def BlockWF (m : Meter) : Prop :=
+  (∃ b, m = .basic b ∧ 0 ≤ b.consumed ∧ b.limit ≤ maxI64) ∨ (∃ c, m = .infinite c)
+
+theorem BlockWF.simple {m : Meter} (h : BlockWF m) : BlockSimple m := by
+  rcases h with ⟨b, h, _⟩ | ⟨c, h⟩
+  · exact .inl ⟨b, h⟩
+  · exact .inr ⟨c, h⟩
+
+theorem blockWF_remaining (m : Meter) (h : BlockWF m) :
+    ∃ g, m.remaining = .ok g ∧ 0 ≤ g := by
+  rcases h with ⟨b, hb, h0, hl⟩ | ⟨c, hc⟩
+  · rw [hb]
+    simp only [Meter.remaining, Basic.remaining, Basic.consumedToLimit_eq]
+    have hin : inI64 (b.limit - if b.consumed > b.limit then b.limit else b.consumed) = true := by
+      rw [inI64_iff]; unfold minI64 maxI64 at *; split <;> omega
+    rw [hin]
+    refine ⟨_, rfl, ?_⟩
+    split <;> omega
+  · rw [hc]; exact ⟨maxI64, rfl, by unfold maxI64; omega⟩
+
+theorem runTx_no_crash (fin : Frame → Store → Frame) (tx : Tx) (parent : Store) (block ctxMeter : Meter)
+    (vm : Store) (h : BlockWF block) : (runTxWith fin .deliver tx parent block ctxMeter vm).crash = false := by
+  obtain ⟨g, hg, hg0⟩ := blockWF_remaining block h
+  unfold runTxWith
+  simp only [hg]
+  have hnew : Basic.new g = .ok { limit := g, consumed := 0 } := by
+    have : ¬ g < 0 := by omega
+    simp [Basic.new, this]
+  rw [hnew]
+  simp only
+  split
+  · rfl
+  · rfl
+
+theorem blockWF_consume (m : Meter) (a : Int) (h : BlockWF m) : BlockWF (m.consume a).1 := by
+  rcases h with ⟨b, hb, h0, hl⟩ | ⟨c, hc⟩
+  · rw [hb]
+    refine .inl ⟨(b.consume a).1, rfl, Basic.consume_nonneg b a h0, ?_⟩
+    rw [Basic.consume_limit]; exact hl
+  · rw [hc]
+    simp only [Meter.consume]
+    split
+    · exact .inr ⟨_, rfl⟩
+    · exact .inr ⟨_, rfl⟩
+
 end GnoVerif.C02
